@@ -540,6 +540,9 @@ func (z *ZeroOrOneExpr) String() string {
 
 // NullableVisit recursively determines whether an object is nullable.
 func (z *ZeroOrOneExpr) NullableVisit(rules map[string]*Rule) bool {
+	// The expression itself is always nullable, but the nullable attributes of
+	// the nodes below it are needed by InitialNames.
+	z.Expr.NullableVisit(rules)
 	return true
 }
 
@@ -577,6 +580,9 @@ func (z *ZeroOrMoreExpr) String() string {
 
 // NullableVisit recursively determines whether an object is nullable.
 func (z *ZeroOrMoreExpr) NullableVisit(rules map[string]*Rule) bool {
+	// The expression itself is always nullable, but the nullable attributes of
+	// the nodes below it are needed by InitialNames.
+	z.Expr.NullableVisit(rules)
 	return true
 }
 
@@ -614,6 +620,8 @@ func (o *OneOrMoreExpr) String() string {
 
 // NullableVisit recursively determines whether an object is nullable.
 func (o *OneOrMoreExpr) NullableVisit(rules map[string]*Rule) bool {
+	// The nullable attributes of the nodes below are needed by InitialNames.
+	o.Expr.NullableVisit(rules)
 	return false
 }
 
